@@ -477,6 +477,14 @@ fn table_strategy(small_weight: u32, big_weight: u32, big: std::ops::Range<usize
         small_weight => (40usize..700, 1usize..4, prop_oneof![Just(7usize), Just(64), Just(1000), Just(1usize << 20)]),
         // big: row groups can exceed 4096 distinct strings (dictionary demotion)
         big_weight => (big, 1usize..3, prop_oneof![Just(1000usize), Just(5000), Just(1usize << 20)]),
+        // one large row group whose row count sits around a multiple of the sidecar's
+        // 8192-row re-slicing unit (k*8192 + r, r near 0 / 1 / 1023 / 1024 / 8191): the
+        // ragged tail of a re-sliced batch is where rows get lost or duplicated
+        big_weight => (
+            (2usize..5, prop_oneof![Just(0usize), Just(1), Just(7), Just(500), Just(1023), Just(1024), Just(4096), Just(8191)]).prop_map(|(k, r)| k * 8192 + r),
+            Just(1usize),
+            Just(1usize << 20)
+        ),
     ];
     (
         shape,
